@@ -1885,12 +1885,23 @@ func checkThrottledConn(r *verifsim.Run, cn *cConn, cr *cConnResult, recs []refR
 			return
 		}
 		rc := motionRecs[p0.rec]
+		// a frame reaches storage when it is processed, but not before its file was started (pre-trigger
+		// frames are written at the trigger): the start instant is the timestamp in the file name
+		startT, terr := time.ParseInLocation("20060102.150405.000", strings.TrimSuffix(filepath.Base(f), ".cptv"), time.UTC)
+		if terr != nil {
+			r.Violate("C11", "C11.files", "name", "unexpected file name %s", f)
+			return
+		}
 		for i, id := range ids {
 			if p0.i+i >= len(rc.IDs) || rc.IDs[p0.i+i] != id {
 				r.Violate("C06", "C06.transparent", "file:order", "throttled file %s: frame %d is id %d, expected the next frame of the same recording (every forwarded frame unchanged and in order)", f, i, id)
 				return
 			}
-			wt = append(wt, procTime[id])
+			at := procTime[id]
+			if at.Before(startT) {
+				at = startT
+			}
+			wt = append(wt, at)
 		}
 		if p0.i+len(ids) < len(rc.IDs) {
 			nCut++
